@@ -38,7 +38,9 @@ VARIABLES rate, haskalman, script,          \* configuration chosen by Setup
           pc, op, excbody, rres, si,        \* user thread; si = next script position
           bid, ladded, pendstart,           \* library: id of the helper's block (0 none), block.added, START to send
           lccf,                             \* Log.add_config accepted the configuration (LogConfig.cf is set)
-          scb, discpend,                    \* SyncLogger: its callbacks are registered; its disconnected callback is about to run
+          toc, pcpend,                      \* parameter table present; Param._disconnected is about to run
+          scb, discpend, sconn,             \* SyncLogger: its callbacks are registered; its disconnected callback is about
+                                            \* to run; _is_connected
           vals,                             \* ranger: the six properties (mm, -1 = None)
           window, syncq,                    \* estimator: history window, SyncLogger queue
           pq, pinfl, t1, now,               \* parameter writes queued / in flight, time of the first call, clock
@@ -46,9 +48,9 @@ VARIABLES rate, haskalman, script,          \* configuration chosen by Setup
           inq, link, ndata,
           obs, mon, bad
 
-vars == <<rate, haskalman, script, pc, op, excbody, rres, si, bid, ladded, pendstart, lccf, scb, discpend, vals, window, syncq,
+vars == <<rate, haskalman, script, pc, op, excbody, rres, si, bid, ladded, pendstart, lccf, toc, pcpend, scb, discpend, sconn, vals, window, syncq,
           pq, pinfl, t1, now, dblk, inq, link, ndata, obs, mon, bad>>
-view == <<rate, haskalman, script, pc, op, excbody, rres, si, bid, ladded, pendstart, lccf, scb, discpend, vals, window, syncq,
+view == <<rate, haskalman, script, pc, op, excbody, rres, si, bid, ladded, pendstart, lccf, toc, pcpend, scb, discpend, sconn, vals, window, syncq,
           pq, pinfl, t1, now, dblk, inq, link, ndata, mon, bad>>
 
 NoBlk == [id |-> 0, started |-> FALSE, per |-> 0]
@@ -62,7 +64,7 @@ Emit(ev) == /\ obs' = ev
 
 Init == /\ rate = 0 /\ haskalman = TRUE /\ script = <<>>
         /\ pc = "setup" /\ op = "" /\ excbody = FALSE /\ rres = "" /\ si = 1
-        /\ bid = 0 /\ ladded = FALSE /\ pendstart = FALSE /\ lccf = FALSE /\ scb = FALSE /\ discpend = FALSE
+        /\ bid = 0 /\ ladded = FALSE /\ pendstart = FALSE /\ lccf = FALSE /\ toc = TRUE /\ pcpend = FALSE /\ scb = FALSE /\ discpend = FALSE /\ sconn = FALSE
         /\ vals = [j \in 1..6 |-> -1]
         /\ window = P!Window0 /\ syncq = <<>>
         /\ pq = <<>> /\ pinfl = FALSE /\ t1 = 0 /\ now = 0
@@ -73,7 +75,7 @@ Setup(r, hk, sc) ==
     /\ pc = "setup"
     /\ rate' = r /\ haskalman' = hk /\ script' = sc /\ pc' = "idle"
     /\ obs' = [E0 EXCEPT !.e = "setup"] /\ mon' = P!M0(Mode, r, hk) /\ bad' = bad
-    /\ UNCHANGED <<scb, discpend, lccf, op, excbody, rres, si, bid, ladded, pendstart, vals, window, syncq, pq, pinfl, t1, now,
+    /\ UNCHANGED <<toc, pcpend, sconn, scb, discpend, lccf, op, excbody, rres, si, bid, ladded, pendstart, vals, window, syncq, pq, pinfl, t1, now,
                    dblk, inq, link, ndata>>
 
 \* ---- device -------------------------------------------------------------------------------
@@ -97,7 +99,7 @@ BugVars == CASE Bug = "swapLeftRight" -> [MyVars EXCEPT ![3] = MyVars[4], ![4] =
 Period == IF Mode = "ranger" THEN rate \div 10 ELSE 50
 
 \* ---- user thread ---------------------------------------------------------------------------
-CanSet == haskalman /\ link = "up"
+CanSet == haskalman /\ toc
 
 Begin ==
     /\ pc = "idle" /\ si <= Len(script)
@@ -116,7 +118,7 @@ Begin ==
        /\ Emit([E0 EXCEPT !.e = "begin", !.op = (IF o = "exitexc" THEN "exit" ELSE o),
                           !.res = (IF o = "exitexc" THEN "exc" ELSE "")])
     /\ si' = si + 1
-    /\ UNCHANGED <<scb, discpend, rate, haskalman, script, bid, ladded, pendstart, vals, window, syncq, pq, pinfl, t1, now,
+    /\ UNCHANGED <<toc, pcpend, sconn, scb, discpend, rate, haskalman, script, bid, ladded, pendstart, vals, window, syncq, pq, pinfl, t1, now,
                    dblk, inq, link, ndata>>
 
 \* Param.set_value('kalman.resetEstimation', v) finds the parameter (KeyError otherwise: the table lacks it
@@ -135,7 +137,7 @@ PCall(v, t) ==
     /\ scb' = (scb \/ ((v = 0 \/ Bug = "noZeroWrite") /\ link = "up"))      \* SyncLogger.connect()
     /\ discpend' = discpend
     /\ Emit([E0 EXCEPT !.e = "pcall", !.v = v, !.t = t])
-    /\ UNCHANGED <<rate, haskalman, script, op, excbody, si, bid, ladded, pendstart, vals, window, syncq, pinfl,
+    /\ UNCHANGED <<toc, pcpend, sconn, rate, haskalman, script, op, excbody, si, bid, ladded, pendstart, vals, window, syncq, pinfl,
                    dblk, inq, link, ndata>>
 
 \* time.sleep(0.1) returned after dt >= 100 ms; set_value(..., '0') looks the parameter up
@@ -145,7 +147,7 @@ SleepWake(dt) ==
     /\ pc' = (IF CanSet THEN "call0" ELSE "end")
     /\ rres' = (IF CanSet THEN rres ELSE "KeyError")
     /\ Emit([E0 EXCEPT !.e = "wake", !.t = t1 + dt])
-    /\ UNCHANGED <<scb, discpend, lccf, rate, haskalman, script, op, excbody, si, bid, ladded, pendstart, vals, window, syncq, pq, pinfl, t1,
+    /\ UNCHANGED <<toc, pcpend, sconn, scb, discpend, lccf, rate, haskalman, script, op, excbody, si, bid, ladded, pendstart, vals, window, syncq, pq, pinfl, t1,
                    dblk, inq, link, ndata>>
 
 \* Log.add_config + LogConfig.start() -> create(): one CREATE_BLOCK_V2 message
@@ -154,8 +156,9 @@ SendCreate ==
     /\ bid' = bid + 1
     /\ DevCtl("create", bid + 1, 0)
     /\ pc' = (IF op = "reset" THEN "loop" ELSE "end")
+    /\ sconn' = (op = "reset")         \* SyncLogger.connect() is through
     /\ Emit([E0 EXCEPT !.e = "ctl", !.cmd = "create", !.id = bid + 1, !.vars = BugVars])
-    /\ UNCHANGED <<scb, discpend, lccf, rate, haskalman, script, op, excbody, rres, si, ladded, pendstart, vals, window, syncq, pq,
+    /\ UNCHANGED <<toc, pcpend, scb, discpend, lccf, rate, haskalman, script, op, excbody, rres, si, ladded, pendstart, vals, window, syncq, pq,
                    pinfl, t1, now, link, ndata>>
 
 \* LogConfig.delete() (ranger: Multiranger.stop; estimator: SyncLogger.disconnect after stop)
@@ -166,9 +169,9 @@ SendDelete ==
     /\ Bug # "noDelete"
     /\ DevCtl("delete", bid, 0)
     /\ pc' = "end"
-    /\ scb' = FALSE                 \* SyncLogger.disconnect() removes its callbacks after the delete
+    /\ sconn' = FALSE /\ scb' = FALSE                 \* SyncLogger.disconnect() removes its callbacks after the delete
     /\ Emit([E0 EXCEPT !.e = "ctl", !.cmd = "delete", !.id = bid])
-    /\ UNCHANGED <<discpend, lccf, rate, haskalman, script, op, excbody, rres, si, bid, ladded, pendstart, vals, window, syncq, pq,
+    /\ UNCHANGED <<toc, pcpend, discpend, lccf, rate, haskalman, script, op, excbody, rres, si, bid, ladded, pendstart, vals, window, syncq, pq,
                    pinfl, t1, now, link, ndata>>
 
 SendStop ==
@@ -176,22 +179,24 @@ SendStop ==
     /\ DevCtl("stop", bid, 0)
     /\ pc' = "delete"
     /\ Emit([E0 EXCEPT !.e = "ctl", !.cmd = "stop", !.id = bid])
-    /\ UNCHANGED <<scb, discpend, lccf, rate, haskalman, script, op, excbody, rres, si, bid, ladded, pendstart, vals, window, syncq, pq,
+    /\ UNCHANGED <<toc, pcpend, sconn, scb, discpend, lccf, rate, haskalman, script, op, excbody, rres, si, bid, ladded, pendstart, vals, window, syncq, pq,
                    pinfl, t1, now, link, ndata>>
 
 \* the estimator loop takes the next item of the SyncLogger queue
 UTake ==
     /\ syncq # <<>>
     /\ pc = "loop" \/ (pc = "send" /\ op = "reset" /\ link # "up")
+    /\ sconn' = (sconn \/ pc = "send")      \* (connect() ended without transmitting: the link was gone)
     /\ LET s == Head(syncq)
            w == IF s = DISC THEN window ELSE P!Push(window, s)
            leave == s = DISC \/ P!Converged(w) \/ Bug = "firstSample"
        IN /\ window' = w
-          /\ pc' = IF s = DISC THEN "end"
+          \* after the loop body SyncLogger.__next__ looks at _is_connected before it waits again
+          /\ pc' = IF s = DISC \/ (~sconn /\ pc = "loop") THEN "end"
                    ELSE IF leave THEN (IF link = "up" THEN "stop" ELSE "end") ELSE "loop"
           /\ Emit([E0 EXCEPT !.e = "take", !.vals = s])
     /\ syncq' = Tail(syncq)
-    /\ UNCHANGED <<scb, discpend, lccf, rate, haskalman, script, op, excbody, rres, si, bid, ladded, pendstart, vals, pq, pinfl, t1,
+    /\ UNCHANGED <<toc, pcpend, scb, discpend, lccf, rate, haskalman, script, op, excbody, rres, si, bid, ladded, pendstart, vals, pq, pinfl, t1,
                    now, dblk, inq, link, ndata>>
 
 EndRes == IF rres # "" THEN rres
@@ -206,7 +211,7 @@ End ==
     /\ pc' = "idle"
     /\ Emit([E0 EXCEPT !.e = "end", !.op = op, !.res = EndRes])
     /\ op' = ""
-    /\ UNCHANGED <<scb, discpend, lccf, rate, haskalman, script, excbody, rres, si, bid, ladded, pendstart, vals, window, syncq, pq, pinfl,
+    /\ UNCHANGED <<toc, pcpend, sconn, scb, discpend, lccf, rate, haskalman, script, excbody, rres, si, bid, ladded, pendstart, vals, window, syncq, pq, pinfl,
                    t1, now, dblk, inq, link, ndata>>
 
 \* ---- updater ------------------------------------------------------------------------------
@@ -215,7 +220,7 @@ PTx ==
     /\ pq' = Tail(pq) /\ pinfl' = TRUE
     /\ inq' = Append(inq, [t |-> "prx", cmd |-> "", id |-> 0, st |-> 0, vals |-> <<Head(pq)>>])
     /\ Emit([E0 EXCEPT !.e = "pset", !.v = Head(pq)])
-    /\ UNCHANGED <<scb, discpend, lccf, rate, haskalman, script, pc, op, excbody, rres, si, bid, ladded, pendstart, vals, window, syncq,
+    /\ UNCHANGED <<toc, pcpend, sconn, scb, discpend, lccf, rate, haskalman, script, pc, op, excbody, rres, si, bid, ladded, pendstart, vals, window, syncq,
                    t1, now, dblk, link, ndata>>
 
 \* ---- dispatcher ---------------------------------------------------------------------------
@@ -223,7 +228,7 @@ DispP ==
     /\ inq # <<>> /\ Head(inq).t = "prx" /\ ~pendstart
     /\ inq' = Tail(inq) /\ pinfl' = FALSE
     /\ Emit([E0 EXCEPT !.e = "prx", !.v = Head(inq).vals[1]])
-    /\ UNCHANGED <<scb, discpend, lccf, rate, haskalman, script, pc, op, excbody, rres, si, bid, ladded, pendstart, vals, window, syncq,
+    /\ UNCHANGED <<toc, pcpend, sconn, scb, discpend, lccf, rate, haskalman, script, pc, op, excbody, rres, si, bid, ladded, pendstart, vals, window, syncq,
                    pq, t1, now, dblk, link, ndata>>
 
 DispAck ==
@@ -235,7 +240,7 @@ DispAck ==
                     ELSE IF a.cmd = "create" /\ a.id = bid /\ a.st \in {0, 17} /\ link # "up" THEN TRUE   \* START not sent
                     ELSE ladded
        /\ Emit([E0 EXCEPT !.e = "ack", !.cmd = a.cmd, !.id = a.id, !.st = a.st])
-    /\ UNCHANGED <<scb, discpend, lccf, rate, haskalman, script, pc, op, excbody, rres, si, bid, vals, window, syncq, pq, pinfl, t1, now,
+    /\ UNCHANGED <<toc, pcpend, sconn, scb, discpend, lccf, rate, haskalman, script, pc, op, excbody, rres, si, bid, vals, window, syncq, pq, pinfl, t1, now,
                    dblk, link, ndata>>
 
 \* Log._new_packet_cb on a successful create ack: START_LOGGING is sent from the dispatcher, then block.added = True
@@ -245,7 +250,7 @@ SendStart ==
     /\ DevCtl("start", bid, Period)
     /\ Emit([E0 EXCEPT !.e = "ctl", !.cmd = "start", !.id = bid,
                        !.per = (IF Bug = "period" THEN Period * 10 ELSE Period)])
-    /\ UNCHANGED <<scb, discpend, lccf, rate, haskalman, script, pc, op, excbody, rres, si, bid, vals, window, syncq, pq, pinfl, t1, now,
+    /\ UNCHANGED <<toc, pcpend, sconn, scb, discpend, lccf, rate, haskalman, script, pc, op, excbody, rres, si, bid, vals, window, syncq, pq, pinfl, t1, now,
                    link, ndata>>
 
 RConv(v) == CASE Bug = "limit" -> IF v > 8000 THEN -1 ELSE v
@@ -262,7 +267,7 @@ DispData ==
           /\ syncq' = IF Mode = "estimator" /\ mine /\ scb THEN Append(syncq, d.vals) ELSE syncq
           /\ Emit([E0 EXCEPT !.e = "data", !.id = d.id, !.vals = d.vals,
                              !.read = (IF Mode = "ranger" THEN nv ELSE <<>>)])
-    /\ UNCHANGED <<scb, discpend, lccf, rate, haskalman, script, pc, op, excbody, rres, si, bid, ladded, pendstart, window, pq, pinfl, t1,
+    /\ UNCHANGED <<toc, pcpend, sconn, scb, discpend, lccf, rate, haskalman, script, pc, op, excbody, rres, si, bid, ladded, pendstart, window, pq, pinfl, t1,
                    now, dblk, link, ndata>>
 
 \* ---- environment --------------------------------------------------------------------------
@@ -271,35 +276,44 @@ EmitData(v) ==
     /\ ndata' = ndata + 1
     /\ inq' = Append(inq, [t |-> "data", cmd |-> "", id |-> dblk.id, st |-> 0, vals |-> v])
     /\ Emit([E0 EXCEPT !.e = "emit", !.id = dblk.id, !.vals = v])
-    /\ UNCHANGED <<scb, discpend, lccf, rate, haskalman, script, pc, op, excbody, rres, si, bid, ladded, pendstart, vals, window, syncq,
+    /\ UNCHANGED <<toc, pcpend, sconn, scb, discpend, lccf, rate, haskalman, script, pc, op, excbody, rres, si, bid, ladded, pendstart, vals, window, syncq,
                    pq, pinfl, t1, now, dblk, link>>
 
 \* link error: link closed, cf.link = None, disconnected callbacks (SyncLogger: DISCONNECT_EVENT when its
 \* callback is registered, i.e. from connect() on; Param: updater emptied)
 LinkDrop ==
     /\ LinkLoss /\ link = "up" /\ pc # "setup"
-    /\ link' = "down" /\ pq' = <<>> /\ pinfl' = FALSE
+    /\ link' = "down" /\ pcpend' = TRUE /\ toc' = toc /\ pq' = pq /\ pinfl' = pinfl
     /\ discpend' = scb /\ scb' = scb /\ syncq' = syncq
     /\ pendstart' = FALSE /\ ladded' = (ladded \/ pendstart)      \* a START under way is lost with the link
     /\ Emit([E0 EXCEPT !.e = "down"])
-    /\ UNCHANGED <<lccf, rate, haskalman, script, pc, op, excbody, rres, si, bid, vals, window, t1, now,
+    /\ UNCHANGED <<sconn, lccf, rate, haskalman, script, pc, op, excbody, rres, si, bid, vals, window, t1, now,
                    dblk, inq, ndata>>
+
+\* Param._disconnected: updater emptied and released, parameter table dropped
+ParamClose ==
+    /\ pcpend
+    /\ pcpend' = FALSE /\ toc' = FALSE /\ pq' = <<>> /\ pinfl' = FALSE
+    /\ Emit([E0 EXCEPT !.e = "updclose"])
+    /\ UNCHANGED <<scb, discpend, sconn, lccf, rate, haskalman, script, pc, op, excbody, rres, si, bid, ladded, pendstart, vals,
+                   window, syncq, t1, now, dblk, inq, link, ndata>>
 
 \* SyncLogger._disconnected (one of the last disconnected callbacks): disconnect() -- the link is gone, so
 \* nothing is sent; the callbacks are removed if connect() had finished -- and DISCONNECT_EVENT is queued
 SyncDisc ==
-    /\ discpend
+    /\ discpend /\ ~pcpend          \* (registered after Param's callback)
     /\ discpend' = FALSE
-    /\ scb' = (scb /\ pc = "send")       \* connect() not through yet: _is_connected is False, nothing is removed
+    /\ scb' = (scb /\ ~sconn)            \* connect() not through yet: _is_connected is False, nothing is removed
+    /\ sconn' = FALSE
     /\ syncq' = Append(syncq, DISC)
     /\ Emit([E0 EXCEPT !.e = "disc"])
-    /\ UNCHANGED <<lccf, rate, haskalman, script, pc, op, excbody, rres, si, bid, ladded, pendstart, vals, window, pq,
+    /\ UNCHANGED <<toc, pcpend, lccf, rate, haskalman, script, pc, op, excbody, rres, si, bid, ladded, pendstart, vals, window, pq,
                    pinfl, t1, now, dblk, inq, link, ndata>>
 
 \* ---- next-state relation ------------------------------------------------------------------
 UserNoTime == Begin \/ SendCreate \/ SendDelete \/ SendStop \/ UTake \/ End
 User   == PCall(1, now) \/ PCall(0, now) \/ (\E dt \in Times : SleepWake(dt)) \/ UserNoTime
-Lib    == PTx \/ DispP \/ DispAck \/ SendStart \/ DispData \/ SyncDisc
+Lib    == PTx \/ DispP \/ DispAck \/ SendStart \/ DispData \/ ParamClose \/ SyncDisc
 System == User \/ Lib
 Env    == (\E v \in Vectors : EmitData(v)) \/ LinkDrop
 NextNoConfig == System \/ Env
